@@ -63,6 +63,30 @@ prop("C15", "exploration",
      [{"test": "TestC15", "quick": {"checks": 4000, "shards": 2, "timeout": 600},
        "thorough": {"checks": 40000, "shards": 16, "timeout": 3000}}])
 
+TREE_CASES = ("cases = scenarios from three generators: scripted call trees (2-4 contracts, acyclic call graph plus "
+              "re-entrant calls, all four call kinds, CREATE/CREATE2 with init scripts, value transfers, small fixed call gas, "
+              "REVERT/INVALID/SELFDESTRUCT endings, nonce-overflow and collision pre-states, 1-4 top-level invocations of all "
+              "entry-point kinds on ONE EVM), generated programs (C01 generator incl. non-standard bytes) and a recursion "
+              "template that reaches the 1024 depth limit; provider failures are injected at 0-3 generated join-point lookups. ")
+
+prop("C07", "exploration",
+     TREE_CASES + "After every top-level return the call-tree cursor must be at rest; at the end the tree must have dense "
+     "indices 0..n-1 = the number of call attempts counted independently from the instruction stream, FindCall(i).Index==i, "
+     "parent.Index < Index, each node exactly once among its parent's children in increasing order, all accessors "
+     "consistent, every node reachable, and each node's parent = the innermost recorded frame that issued it (from the "
+     "event stream). Non-trivial = >= 3 nodes, >= 1 failed node, depth >= 2.",
+     [{"test": "TestC07", "quick": {"checks": 4000, "shards": 2, "timeout": 600},
+       "thorough": {"checks": 40000, "shards": 16, "timeout": 3000}}])
+
+prop("C08", "exploration",
+     TREE_CASES + "At every CALL/CREATE/CREATE2 step the recorder copies operands and the argument bytes from memory at that "
+     "instant; Enter/Exit events and the caller-side gas arithmetic give supplied gas, output, error, leftover gas. After "
+     "the whole scenario node k of the call tree must equal attempt k in From, To, Value, Gas, Data, Ret, Err text and "
+     "RemainingGas, and no further node may exist. Non-trivial = a call whose argument window was overwritten later in "
+     "the same frame, or a call refused up front.",
+     [{"test": "TestC08", "quick": {"checks": 4000, "shards": 2, "timeout": 600},
+       "thorough": {"checks": 40000, "shards": 16, "timeout": 3000}}])
+
 # ---------------------------------------------------------------------------
 # Text for MANIFEST.json (gen_manifest.py)
 
@@ -87,6 +111,24 @@ MANIFEST_TEXT = {
         "level_note": "Trusted: upstream core/vm as oracle; the recorder copies (gas, cost) at CaptureState/CaptureFault, "
                       "CaptureEnter/Exit, CaptureStart/End.",
         "technique": "property-based differential testing of step-level gas with generated gas-limit sweeps (rapid)",
+    },
+    "C07": {
+        "level_text": "Property-based testing of a structural invariant over generated executions: the recorded call tree is "
+                      "checked against tree axioms and against a call-attempt count and nesting derived independently from the "
+                      "debug-tracer instruction stream.",
+        "design_ref": "DESIGN.md section 4, C07",
+        "level_note": "Trusted: the debug-tracer stream as ground truth for which calls were attempted. Executions that panic "
+                      "are C03's subject and are only counted here.",
+        "technique": "property-based testing of a structural invariant with an independent event-stream oracle (rapid)",
+    },
+    "C08": {
+        "level_text": "Property-based testing against an independent log: every call attempt is reconstructed from the "
+                      "instruction stream (operands and memory copied at the moment of the call) and compared field by field "
+                      "with the call tree after the transaction, so aliasing with live memory shows.",
+        "design_ref": "DESIGN.md section 4, C08",
+        "level_note": "Trusted: debug-tracer stream; EIP-150 arithmetic for the gas passed to refused creates. For refused "
+                      "attempts (no frame) the error text is not predicted, only its presence.",
+        "technique": "property-based testing against an independent event-log oracle (rapid)",
     },
     "C15": {
         "level_text": "Model-based property testing: executable reference models of EIP-1153 and EIP-5656 (written from the "
